@@ -20,7 +20,7 @@ CONFORMANCE = ("fakefs", "random")
 FUNCS = CROP_FUNCS
 
 
-def body_partition(E, api, n, mode, b, shuf, farmer, cv, j1, j2, j3, j4, j5, resow=False):
+def body_partition(E, api, n, mode, b, shuf, farmer, cv, j1, j2, j3, j4, j5, resow=False, presow=False):
     api = concretize(api, 0, 4)        # 0 grid, 1 case tuples, 2 cases x sub-grid, 3 ONE case given as a bare dict x sub-grid
     #                                    4 cases x sub-grid through sow_cases(fn_args, cases, combos=<dict>)
     n = concretize(n, 1, 10)
@@ -67,6 +67,12 @@ def body_partition(E, api, n, mode, b, shuf, farmer, cv, j1, j2, j3, j4, j5, res
             raise HarnessError("direct run made %d calls" % len(want))
         # ---- sow
         kw = batching_kwargs(mode, b)
+        if cbool(presow) and api == 0 and not farmer:
+            # the directory already holds a sowing of the same settings as ONE batch; the crop is started over
+            # with the requested batching (autoload=False): what it reports and stores is the new layout
+            cp.Crop(fn=fn, name="t", parent_dir=env.parent, batchsize=N).sow_combos(grid(n), constants=consts,
+                                                                                    verbosity=0)
+            kw = dict(kw, autoload=False)
         if farmer:
             crop = cp.Crop(farmer=runner, name="t", parent_dir=env.parent,
                            **(dict(shuffle=shuffle) if api == 1 else {}), **kw)
@@ -86,6 +92,7 @@ def body_partition(E, api, n, mode, b, shuf, farmer, cv, j1, j2, j3, j4, j5, res
         else:
             crop.sow_combos({"b": [20 + i for i in range(n)]}, cases={"a": 10, "c": 3},
                             constants=consts, shuffle=shuffle, verbosity=0)
+        kw = {k_: v_ for k_, v_ in kw.items() if k_ != "autoload"}
         if cbool(resow):
             # "you can safely resow": a second sow of the same crop, by the same object or by one re-created
             # with the same constructor arguments, leaves the same partition
@@ -171,36 +178,43 @@ def body_invalid(E, mode, b):
 
 BODIES = {}
 _G = globals()
-_SIG = "n:int mode:int b:int shuf:int farmer:int cv:int j1:int j2:int j3:int j4:int j5:int resow:bool"
+_SIG = "n:int mode:int b:int shuf:int farmer:int cv:int j1:int j2:int j3:int j4:int j5:int resow:bool presow:bool"
 _J = "0 <= j1 <= 1 and 0 <= j2 <= 2 and 0 <= j3 <= 3 and 0 <= j4 <= 4 and 0 <= j5 <= 5"
 
 CONDS = (
     split_conds(_G, "partition", body_partition, _SIG,
                 ["1 <= n <= 6 and 0 <= mode <= 2 and 1 <= b <= n + 2 and shuf == 0 and 0 <= farmer <= 1",
-                 "j1 == 0 and j2 == 0 and j3 == 0 and j4 == 0 and j5 == 0", "not resow or (API == 0 and farmer == 0)"],
+                 "j1 == 0 and j2 == 0 and j3 == 0 and j4 == 0 and j5 == 0", "not resow or (API == 0 and farmer == 0)",
+                 "not presow"],
                 "api", [0, 1],
                 timeout=300, tiers=("quick",),
                 bounds="N<=6 settings, batchsize 1..N+1 / num_batches 1..N+2 / neither, with and without a Runner "
                        "farmer contributing constants and resources; for grids also after a re-sow by the same and by "
                        "a re-created object; reports compared after reload by name and by constructor call; api 0 "
                        "grid, 1 case list")
+    + [make_cond(_G, "partition_presow", body_partition, _SIG,
+                 ["1 <= n <= 6 and 0 <= mode <= 2 and 1 <= b <= n + 2 and shuf == 0 and farmer == 0",
+                  "j1 == 0 and j2 == 0 and j3 == 0 and j4 == 0 and j5 == 0", "not resow and presow"], fixed=dict(api=0),
+                 timeout=300, bounds="a directory that already holds a one-batch sowing of the same grid, started "
+                                     "over with Crop(..., autoload=False) and the requested batching: files, reports "
+                                     "and reloads show the new layout")]
     + [make_cond(_G, "partition_api2", body_partition, _SIG,
                  ["1 <= n <= 3 and 0 <= mode <= 2 and 1 <= b <= 2 * n + 2 and shuf == 0 and 0 <= farmer <= 1",
-                  "j1 == 0 and j2 == 0 and j3 == 0 and j4 == 0 and j5 == 0", "not resow"], fixed=dict(api=2),
+                  "j1 == 0 and j2 == 0 and j3 == 0 and j4 == 0 and j5 == 0", "not resow and not presow"], fixed=dict(api=2),
                  timeout=300, tiers=("quick",), bounds="cases x sub-grid, N=2n<=6, all batchings, farmer on/off")]
     + [make_cond(_G, "partition_api4", body_partition, _SIG,
                  ["1 <= n <= 3 and 0 <= mode <= 2 and 1 <= b <= 2 * n + 2 and shuf == 0 and 0 <= farmer <= 1",
-                  "j1 == 0 and j2 == 0 and j3 == 0 and j4 == 0 and j5 == 0", "not resow"], fixed=dict(api=4),
+                  "j1 == 0 and j2 == 0 and j3 == 0 and j4 == 0 and j5 == 0", "not resow and not presow"], fixed=dict(api=4),
                  timeout=300, bounds="cases x sub-grid through sow_cases(fn_args, cases, combos=<dict>), N=2n<=6, "
                                      "all batchings, farmer on/off")]
     + [make_cond(_G, "partition_api3", body_partition, _SIG,
                  ["1 <= n <= 6 and 0 <= mode <= 2 and 1 <= b <= n + 2 and shuf == 0 and farmer == 0",
-                  "j1 == 0 and j2 == 0 and j3 == 0 and j4 == 0 and j5 == 0", "not resow"], fixed=dict(api=3),
+                  "j1 == 0 and j2 == 0 and j3 == 0 and j4 == 0 and j5 == 0", "not resow and not presow"], fixed=dict(api=3),
                  timeout=300, bounds="one case given as a bare dict of two arguments x a sub-grid of N<=6 values, "
                                      "all batchings")]
     + split_conds(_G, "partition_shuffled", body_partition, _SIG,
                   ["2 <= n <= 4 and 1 <= mode <= 2 and 1 <= b <= 3 and 1 <= shuf <= 2 and farmer == 0",
-                   _J, "j4 == 0 and j5 == 0", "not resow"], "api", [0, 1], timeout=300,
+                   _J, "j4 == 0 and j5 == 0", "not resow and not presow"], "api", [0, 1], timeout=300,
                   bounds="shuffle=True/int, every permutation of N<=4 settings, batchsize/num_batches in 1..3")
     + [make_cond(_G, "partition_t_api%d_n%d" % (api, n), body_partition,
                  "mode:int b:int farmer:int cv:int",
